@@ -111,6 +111,20 @@ def corpus():
                enc='map', lifetimes=True, doc='path-qualified Option with a codec that has no nil functions, map'))
     C.append(E('E17', [Var('V2', 2), Var('V0', 0, 'tuple', [F('_0', 'u8', 0)]), Var('V1', 1, 'named', [F('f00', 'u8', 0), F('f01', 'Option<u8>', 1)])], doc='variants declared out of index order'))
     C.append(E('E18', [Var('V3', 3), Var('V1', 1), Var('V2', 2)], index_only=True, doc='index_only, variants declared out of index order'))
+    # --- tag numbers and indices at the width boundaries of a CBOR head (23|24, 2^8-1|2^8, 2^16-1|2^16, 2^32-1|2^32, 2^64-1) at
+    #     every level a tag / an index can be written: a length or head computed at expansion time from a hand-made table shows here
+    C.append(S('W00', 'struct', [F('f00', 'u8', 0, tag=24), F('f01', 'u8', 1, tag=255), F('f02', 'Option<u8>', 2, tag=256)], tag=23, doc='tags at 23|24, 255|256'))
+    C.append(S('W01', 'struct', [F('f00', 'u8', 0, tag=65536), F('f01', 'String', 1, tag=4294967295)], tag=65535, enc='map', doc='tags at 65535|65536, 2^32-1'))
+    C.append(S('W02', 'struct', [F('f00', 'u8', 0, tag=18446744073709551615)], tag=4294967296, doc='tags at 2^32, 2^64-1'))
+    C.append(E('W03', [Var('V0', 0, tag=255), Var('V1', 1, 'named', [F('f00', 'u8', 0, tag=24)], tag=65535), Var('V2', 2, 'tuple', [F('_0', 'u8', 0)], tag=4294967295)],
+               tag=23, doc='boundary tags on an enum and its variants'))
+    C.append(S('W04', 'struct', [F('f00', 'u8', 23), F('f01', 'u8', 24), F('f02', 'Option<u8>', 255), F('f03', 'u8', 256), F('f04', 'Option<u8>', 65535), F('f05', 'u8', 65536),
+                                 F('f06', 'u8', 4294967295)], enc='map', doc='map keys at the head-width boundaries'))
+    C.append(E('W05', [Var('V0', 23), Var('V1', 24, 'tuple', [F('_0', 'u8', 0)]), Var('V2', 255), Var('V3', 256, 'named', [F('f00', 'u8', 0)]), Var('V4', 65535), Var('V5', 65536),
+                       Var('V6', 4294967295)], doc='variant indices at the head-width boundaries'))
+    C.append(E('W06', [Var('V0', 23), Var('V1', 24), Var('V2', 255), Var('V3', 256), Var('V4', 65535), Var('V5', 65536), Var('V6', 4294967295)], index_only=True,
+               doc='index_only, boundary indices'))
+    C.append(S('W07', 'struct', [F('f00', 'u8', 0), F('f01', 'Option<u8>', 23), F('f02', 'u8', 24)], doc='array positions across the 23|24 header boundary (gaps filled with null)'))
     # --- values that are nil without being spelled Option<..>, and wrappers around Option that are *not* nil ----------------------
     C.append(S('T00', 'tuple', [F('_0', 'Option<u8>', 0)], transparent=True, doc='transparent newtype around an Option'))
     C.append(S('T01', 'tuple', [F('_0', 'u8', 0, tag=37)], transparent=True, doc='transparent newtype whose field carries a tag attribute (ignored by the derive)'))
@@ -133,7 +147,8 @@ def corpus():
     C.append(S('N14', 'struct', [F('f00', 'u8', 0), F('f01', 'Option<Opaque>', 1, codec='custom_nil_opt')], enc='map', doc='same, map'))
     C.append(E('N15', [Var('V0', 0, 'named', [F('f00', 'u8', 0), F('f01', 'Option<Opaque>', 1, codec='custom_nil_opt')], enc='map')], doc='same, enum variant'))
     # --- every spelling of a nil-aware codec (attribute order, split attributes, module form) -----------------------------------
-    for k, cd in enumerate(('custom_nil_enc_first', 'custom_nil_dec_first', 'custom_nil_interleaved', 'custom_nil_module')):
+    for k, cd in enumerate(('custom_nil_enc_first', 'custom_nil_dec_first', 'custom_nil_interleaved', 'custom_nil_module', 'custom_nil_module_rev', 'custom_nil_module_split',
+                            'custom_nil_dec_nil_enc', 'custom_nil_enc_isnil_dec')):
         C.append(S('K%d0' % k, 'struct', [F('f00', 'u8', 0), F('f01', 'Opaque', 1, codec=cd)], enc='map', doc='codec spelling %s, map' % cd))
         C.append(S('K%d1' % k, 'struct', [F('f00', 'u8', 0), F('f01', 'Opaque', 1, codec=cd), F('f02', 'Option<u8>', 2)], doc='codec spelling %s, array' % cd))
     # --- tuple variants / tuple structs whose declaration order is not the index order, nothing skipped ---------------------------
@@ -229,6 +244,16 @@ def attr_field(f, default_n=True):
                  'nil = "crate::codec::nil_opaque", cbor_len = "crate::codec::len_opaque")]')
     elif c == 'custom_nil_module':
         a.append('#[cbor(with = "crate::codec::opq", has_nil)]')
+    elif c == 'custom_nil_module_rev':
+        a.append('#[cbor(has_nil, with = "crate::codec::opq")]')
+    elif c == 'custom_nil_module_split':
+        a.append('#[cbor(has_nil)] #[cbor(with = "crate::codec::opq")]')
+    elif c == 'custom_nil_dec_nil_enc':
+        a.append('#[cbor(decode_with = "crate::codec::dec_opaque", nil = "crate::codec::nil_opaque", encode_with = "crate::codec::enc_opaque", '
+                 'is_nil = "crate::codec::is_nil_opaque", cbor_len = "crate::codec::len_opaque")]')
+    elif c == 'custom_nil_enc_isnil_dec':
+        a.append('#[cbor(encode_with = "crate::codec::enc_opaque", is_nil = "crate::codec::is_nil_opaque", cbor_len = "crate::codec::len_opaque", '
+                 'decode_with = "crate::codec::dec_opaque", nil = "crate::codec::nil_opaque")]')
     elif c == 'custom_nil':
         a.append('#[cbor(encode_with = "crate::codec::enc_opaque", decode_with = "crate::codec::dec_opaque", cbor_len = "crate::codec::len_opaque", '
                  'is_nil = "crate::codec::is_nil_opaque", nil = "crate::codec::nil_opaque")]')
